@@ -49,12 +49,14 @@ def eq_coverage(repo, c, model, f):
     ft = FieldTaint(repo, c, f, [sn, on], dict_fields)
     ft.project_slots = {s for s, k in model.slot_kind.items() if k == "single"}
     ft.one_sided = True
+    ft.container_project_slots = {s for s, k in model.slot_kind.items() if k != "single"}
     ft._fix()
     pm = {}
     for n in ast.walk(f.node):
         for ch in ast.iter_child_nodes(n):
             pm[ch] = n
     cov = {}
+    elem_use = {}
 
     def note(field, **kw):
         d = cov.setdefault(field, dict(full=False, keys=False, zipped=False, len=False, numeq=False, plain=False, part=False, node=None))
@@ -65,10 +67,28 @@ def eq_coverage(repo, c, model, f):
             elif v:
                 d[k] = True
 
+    def root_name(e):
+        proj = False
+        while isinstance(e, (ast.Attribute, ast.Subscript)):
+            proj = proj or isinstance(e, ast.Attribute)
+            e = e.value
+        return (e.id if isinstance(e, ast.Name) else None), proj
+
     def pairs(node, a, b, env, is_numeq):
         if under_or(node, pm, f.node):
             return
         La, Lb = ft.L(a, env), ft.L(b, env)
+        # element variables (bound by iterating a child container) compared whole, or only through one attribute
+        for e in (a, b):
+            nm, proj = root_name(e)
+            if nm is not None and nm not in (sn, on):
+                for (p1, f1, fl1, z1) in ft.L(ast.Name(id=nm, ctx=ast.Load()), env):
+                    if f1 in getattr(ft, "container_project_slots", ()):
+                        elem_use.setdefault((f1, nm), dict(whole=False, proj=None))
+                        if proj:
+                            elem_use[(f1, nm)]["proj"] = elem_use[(f1, nm)]["proj"] or node
+                        else:
+                            elem_use[(f1, nm)]["whole"] = True
         for (x, y) in ((La, Lb), (Lb, La)):
             for (p1, f1, fl1, z1) in x:
                 if p1 != sn:
@@ -92,6 +112,10 @@ def eq_coverage(repo, c, model, f):
             pairs(node, node.args[0], node.args[1], env, True)
 
     ft.visit_exprs(f.node, visit)
+    for (f1, nm), u in elem_use.items():
+        if u["proj"] is not None and not u["whole"]:
+            d = cov.setdefault(f1, dict(full=False, keys=False, zipped=False, len=False, numeq=False, plain=False, part=False, node=None))
+            d["elem_part"] = (nm, u["proj"])
     return cov
 
 
@@ -129,6 +153,14 @@ def run(repo, rep, tier):
         for fld in fields:
             d = cov.get(fld)
             ok = bool(d and d["full"] and (not d["zipped"] or d["len"] or d["keys"]))
+            if ok and d.get("elem_part"):
+                # (threshold, child) pairs: the thresholds are compared whole, the children only through one attribute
+                ok = False
+                nm, nd0 = d["elem_part"]
+                r1.ob(False, f"{c.name}.__eq__: field {fld}: element `{nm}` compared through a projection only")
+                rep.finding("R9.1", f, nd0, f"the elements `{nm}` of `{fld}` are compared only through one attribute (`{norm(nd0)[:80]}`), never as a whole: "
+                            f"two aggregators whose children agree in that attribute but differ otherwise compare equal", stmt=f"{fld}: element {nm} compared by projection only")
+                continue
             r1.ob(ok, f"{c.name}.__eq__: field {fld}: {('compared' if ok else 'NOT compared')}")
             if ok:
                 continue
